@@ -441,6 +441,60 @@ def akey_mapping_batches(seed, tier, cfgmode="literal"):
     return batches
 
 
+def panic_axis_batches(seed, tier):
+    """Panic triggered by axes that emulate actions: a trigger and a stick side carry panic in some mappings and are
+    controllers, keys or absent in the others; mapping switches and cc-learning (which drops reports near the
+    centre) are interleaved, note keys keep something sounding."""
+    rng = random.Random(seed * 211 + 5)
+    n_walks, length = (12, 150) if tier == "quick" else (80, 400)
+    batches = []
+    info = {"ABS_Z": {"min": 0, "max": 255}, "ABS_RY": {"min": -128, "max": 127}, "ABS_HAT0X": {"min": -1, "max": 1}}
+    keys = {"BTN_A": {"n": 60, "o": 0}, "BTN_B": {"n": 64, "o": 1}}
+    acts = {"KEY_F9": "cc_learning", "KEY_F11": "mapping_down", "KEY_F12": "mapping_up", "KEY_F2": "channel_up"}
+    for flip in (False, True):
+        for other in ("cc", "key", "absent"):
+            a1 = {"ABS_Z": axis("action", act="panic", bidi=False, flip=flip, dzn=0, dzd=1),
+                  "ABS_RY": axis("action", act="octave_up", actNeg="panic", bidi=True, flip=flip, dzn=1, dzd=10),
+                  "ABS_HAT0X": axis("action", act="panic", actNeg="channel_down", bidi=True)}
+            if other == "cc":
+                a2 = {"ABS_Z": axis("cc", cc=9, dzn=0, dzd=1), "ABS_RY": axis("cc", cc=10, ccNeg=11, bidi=True),
+                      "ABS_HAT0X": axis("action", act="panic", actNeg="channel_down", bidi=True)}
+            elif other == "key":
+                a2 = {"ABS_Z": axis("key", note=40, bidi=False, flip=flip), "ABS_RY": axis("key", note=41, noteNeg=42, bidi=True),
+                      "ABS_HAT0X": axis("action", act="channel_up", actNeg="panic", bidi=True)}
+            else:
+                a2 = {"ABS_HAT0X": axis("action", act="panic", actNeg="panic", bidi=True)}
+            cfg = base_cfg(mode=rng.choice(["off", "no_repeat", "interrupt", "retrigger"]), dChan=rng.randrange(16), dMap=1, actions=acts,
+                           maps=[{"name": "A", "keys": keys, "axes": a1}, {"name": "B", "keys": keys, "axes": a2}], axinfo=info)
+            walks = []
+            for _ in range(n_walks):
+                w, held, learning = [], set(), False
+                for _ in range(length):
+                    r = rng.random()
+                    if r < 0.5:
+                        a = rng.choice(sorted(info))
+                        mn, mx = info[a]["min"], info[a]["max"]
+                        mid = (mn + mx) // 2 if mn == 0 else 0
+                        raw = rng.choice([mn, mx, mid, mid, rng.randint(mn, mx), mid + (mx - mid) // 2 + rng.randint(-1, 1)])
+                        raw = max(mn, min(mx, raw))
+                        if any(a in m["axes"] and on_float_boundary(info[a], m["axes"][a], raw) for m in cfg["maps"]):
+                            continue
+                        w.append({"ev": "axis", "a": a, "raw": raw})
+                    elif r < 0.7:
+                        k = rng.choice(sorted(keys))
+                        w.append({"ev": "release" if k in held else "press", "k": k})
+                        held ^= {k}
+                    elif r < 0.8:
+                        w.append({"ev": "release" if learning else "press", "k": "KEY_F9"})
+                        learning = not learning
+                    else:
+                        k = rng.choice(["KEY_F11", "KEY_F12", "KEY_F12", "KEY_F2"])
+                        w += [{"ev": "press", "k": k}, {"ev": "release", "k": k}]
+                walks.append(w)
+            batches.append({"cfg": cfg, "cfgmode": "literal", "sub": "", "walks": walks})
+    return batches
+
+
 def c05_batches(seed, tier):
     """Boundary configurations as the parser may let them through: default channel, velocity, key and
     axis channel offsets, controller numbers at and beyond their ranges.  The harness skips the ones
